@@ -236,7 +236,8 @@ def build_file(version, shard=(0, 1)):
         top.append(die)
         cases.append(Case(die, LOUSER_Q if attr == "DW_AT_lo_user" else "@" + attr[3:], exp, what))
 
-    forms_u = ["DW_FORM_data1", "DW_FORM_data2", "DW_FORM_data4", "DW_FORM_data8", "DW_FORM_udata"] + (["DW_FORM_implicit_const"] if version >= 5 else [])
+    # (DW_FORM_sdata holding a non-negative number is valid for these attributes too: the attribute decides, not the form)
+    forms_u = ["DW_FORM_data1", "DW_FORM_data2", "DW_FORM_data4", "DW_FORM_data8", "DW_FORM_udata", "DW_FORM_sdata"] + (["DW_FORM_implicit_const"] if version >= 5 else [])
     for at, (dom, vals) in ENUM_DOMS.items():
         for form in forms_u:
             for v in vals:
